@@ -44,7 +44,8 @@ VOUCHED_TIME = KaniUnit(
                 "never reaches the blocking Mutex::lock (stubbed to fail)", kind="bounded",
                 bound="at most {W} interfering writes per snapshot call", covers=2, timeout=1500, mod="atomic_base_time", unwind_is_property_in="AtomicBaseTime::snapshot"),
         Harness("c18_try_update_never_blocks", ["C18"], "AtomicBaseTime::try_update",
-                "never reaches the blocking Mutex::lock, lock held or free; cannot succeed while another writer holds the lock",
+                "never reaches the blocking Mutex::lock, lock held or free, poison flag (where the code asks for it through is_poisoned) "
+                "arbitrary; cannot succeed while another writer holds the lock",
                 kind="proof", timeout=900, mod="atomic_base_time"),
         Harness("c14_real_voucher_pins_parameters", ["C14"], "VouchedTime::check",
                 "with the real raffle code: a voucher for the base under the crate's parameters is accepted; one for "
